@@ -232,6 +232,23 @@ def check(ctx):
             need = {"is_file": any(re.match(r"call Path::is_file\(\)=true", x) for x in conds),
                     "is_generated_file": any(re.match(r"call OutputManager::is_generated_file\(\)=true", x) for x in conds),
                     "not-current": any(re.match(r"call HashSet::contains\(\)=false", x) for x in conds)}
+            # the guards speak about the entry's own name: a name that was case-folded / trimmed / rewritten first is another name
+            # (`Models.ts` is not the tool's `models.ts`)
+            TRANSFORMS = ("to_lowercase", "to_uppercase", "to_ascii_lowercase", "to_ascii_uppercase", "trim", "trim_start", "trim_end", "trim_matches",
+                          "trim_start_matches", "trim_end_matches", "replace", "replacen", "strip_prefix", "strip_suffix", "to_lossy_lowercase")
+            for (a_, lab_) in f.edge_dominators(c.bb):
+                o_, out_ = f.cond_struct(a_, lab_)
+                while o_[0] == "un":
+                    o_ = o_[2]
+                if o_[0] == "call" and (short_path(o_[1].best) == "OutputManager::is_generated_file" or (o_[1].name == "contains" and "HashSet" in o_[1].path)) and len(o_[1].args) >= 2:
+                    fed = f.feeding_calls(o_[1].args[1], depth=6)
+                    tr = sorted(x.split("::")[-1] for x in fed if x.split("::")[-1] in TRANSFORMS)
+                    if tr:
+                        r3.bad(V(r3.id, f.id, "guard-on-transformed-name:%s:%s" % (o_[1].name, ",".join(tr)),
+                                 "the deletion guard %s(..) is asked about a transformed file name (%s), not the directory entry's own name: files that merely resemble a reserved name are deleted"
+                                 % (o_[1].name, ", ".join(tr)), c.file, c.line))
+                    else:
+                        r3.ok("%s: %s is asked about the entry's own file name" % (short_path(f.id), o_[1].name))
             miss = [k for k, v in need.items() if not v]
             if miss:
                 r3.bad(V(r3.id, f.id, "unguarded-delete:%s:missing=%s" % (short_path(c.best), ",".join(miss)),
